@@ -167,6 +167,11 @@ func typeof(i interface{}) reflect.Type {
 }
 
 func uuidExt(name string) (uuid, ext string) {
+	// an object file is named by its uuid followed by the extension of
+	// the collection, which does not have to start with a dot
+	if len(name) >= 36 && uuidRegexp.MatchString(name[:36]) {
+		return name[:36], name[36:]
+	}
 	s := strings.SplitN(name, ".", 2)
 	uuid = s[0]
 	// a name without extension
